@@ -26,7 +26,8 @@ def run(ctx):
                 "items (every line/curve command, flex after move/line/curve, div operands, subroutine calls, hint "
                 "replacement) with operands on the number-format boundaries, decodes them with the machine and emits "
                 "tokens + described glyph; family layout: every container x lenIV x RD/-| names x number encoding x "
-                "encoding form; family seac: accented composites (DESIGN.md 10). The harness's independent writer "
+                "encoding form, the line ends LF / CR / CR LF of the text portions, 1500 filler glyphs (an encrypted portion "
+                "beyond 64 KiB); family fontlevel: FontInfo / Private variants x date layouts x line ends; family seac: accented composites (DESIGN.md 10). The harness's independent writer "
                 "(Type 1 book structure, own ciphers checked against Eexec.tla) serialises the model font, type1.Read "
                 "must return the described outlines, widths, hints, encoding at all 256 codes, FontInfo and Private values "
                 "with defaults.")
